@@ -1962,3 +1962,87 @@ Proof.
     injection E1 as E1. subst d1. rewrite wadd_0_l. unfold sb.
     apply (sketch_stream_decode wx (sk_map b) pb nb (sk_zero b) (Some (sk_map a)) _ _ _ HD2 Hmb Hob Heq).
 Qed.
+(* ================================================================== *)
+(* 11. The abstract store interface, packaged                          *)
+(* ================================================================== *)
+(* [abs] abstraction to Layer A, [good] representation invariant, [okw] admissible weights,
+   [step] what one AddWithCount does to the content (badd0 for exact stores, [sadd l] for collapsing ones).
+   Proved per store kind elsewhere; here for the sparse store. *)
+Definition store_refines (abs : store -> bins) (good : store -> Prop) (okw : W -> Prop)
+                         (step : bins -> Z -> W -> bins) : Prop :=
+  (forall s i c, good s -> okw c -> exists s', st_addw s i c = Some s' /\ good s' /\ abs s' = step (abs s) i c)
+  /\ (forall s i, good s -> exists s', st_add s i = Some s' /\ good s' /\ abs s' = step (abs s) i w1)
+  /\ (forall s sub b, good s -> dec_bins s sub b = dec_bins_generic s sub b).
+
+Theorem sparse_refines : store_refines ss_bins is_sparse any_w badd0.
+Proof. split; [exact sparse_addw|]. split; [exact sparse_add|exact sparse_np]. Qed.
+
+Theorem generic_dec_bins abs good okw step bb s : store_refines abs good okw step ->
+  wf_bins bb -> good s -> okw_bins okw bb ->
+  exists s', (forall rest, dec_bins_generic s (fst (ser_bins bb) * 4)%N (snd (ser_bins bb) ++ rest) = DOk s' rest)
+             /\ good s' /\ abs s' = steps step (abs s) (bins_of_block bb).
+Proof. intros [H1 [H2 _]]. apply dec_bins_generic_ser; assumption. Qed.
+Theorem generic_dec_bins_trunc abs good okw step bb s p t : store_refines abs good okw step ->
+  wf_bins bb -> good s -> okw_bins okw bb -> snd (ser_bins bb) = p ++ t -> t <> [] ->
+  dec_bins_generic s (fst (ser_bins bb) * 4)%N p = DErr EEof.
+Proof. intros [H1 [H2 _]]. eapply dec_bins_generic_trunc; eassumption. Qed.
+Theorem generic_dec_sketch abs good okw step wx st d : store_refines abs good okw step -> fD2 wx = true ->
+  wf_stream st -> okw_stream okw st -> maps_chain (ds_map d) st -> ds_good good d ->
+  last_mapid (ds_map d) st <> None ->
+  exists d', dec_sketch_into wx d (serialize st) = DOk d' [] /\ ds_rel_st abs good step d d' st.
+Proof. intros [H1 [H2 H3]] HD2. apply dec_sketch_ser with (okw := okw); assumption. Qed.
+Theorem generic_truncation abs good okw step wx st b d p t : store_refines abs good okw step ->
+  fD2 wx = true -> fD3 wx = true ->
+  wf_stream st -> okw_stream okw st -> maps_chain (ds_map d) st -> ds_good good d ->
+  wf_block b -> kind_ok_block b -> okw_block okw b ->
+  ser_block b = p ++ t -> t <> [] -> p <> [] ->
+  dec_sketch_into wx d (serialize st ++ p) = DErr EEof.
+Proof. intros [H1 [H2 H3]] HD2 HD3. apply dec_sketch_truncation with (abs := abs) (good := good) (okw := okw) (step := step); assumption. Qed.
+Theorem generic_mapping_mismatch abs good okw step wx st d kd g o m0 rest : store_refines abs good okw step ->
+  fD2 wx = true ->
+  wf_stream st -> okw_stream okw st -> maps_chain (ds_map d) st -> ds_good good d ->
+  last_mapid (ds_map d) st = Some m0 ->
+  kind_ok kd -> fle g f64_one = false -> map_equals m0 (map_of kd g o) = false ->
+  dec_sketch_into wx d (serialize st ++ ser_block (BMapping kd g o) ++ rest) = DErr EMismatch.
+Proof. intros [H1 [H2 H3]] HD2. apply dec_sketch_mapping_mismatch with (abs := abs) (good := good) (okw := okw) (step := step); assumption. Qed.
+Theorem generic_missing_mapping abs good okw step wx st d : store_refines abs good okw step -> fD2 wx = true ->
+  wf_stream st -> okw_stream okw st -> maps_chain (ds_map d) st -> ds_good good d ->
+  last_mapid (ds_map d) st = None ->
+  dec_sketch_into wx d (serialize st) = DErr EMissingMapping.
+Proof. intros [H1 [H2 H3]] HD2. apply dec_sketch_missing_mapping with (abs := abs) (good := good) (okw := okw) (step := step); assumption. Qed.
+
+(* ================================================================== *)
+(* 12. Observers for the executable examples (floats compared by bit pattern, weights as Q) *)
+(* ================================================================== *)
+Definition bins_sig (bb : bin_block) : N * list Z * list N :=
+  match bb with
+  | IndexDeltasAndCounts l => (1%N, map fst l, map (fun dc => bits_of_f64 (snd dc)) l)
+  | IndexDeltas l => (2%N, l, [])
+  | ContiguousCounts f s l => (3%N, [f; s], map bits_of_f64 l)
+  end.
+Definition block_sig (b : block) : N * N * (N * list Z * list N) :=
+  match b with
+  | BZeroCount w => (0%N, 0%N, (0%N, [], [bits_of_f64 w]))
+  | BMapping k g o => (1%N, k, (0%N, [], [bits_of_f64 g; bits_of_f64 o]))
+  | BStore neg bb => (2%N, if neg then 1%N else 0%N, bins_sig bb)
+  | BCount w => (3%N, 0%N, (0%N, [], [bits_of_f64 w]))
+  | BSum w => (4%N, 0%N, (0%N, [], [bits_of_f64 w]))
+  | BMin w => (5%N, 0%N, (0%N, [], [bits_of_f64 w]))
+  | BMax w => (6%N, 0%N, (0%N, [], [bits_of_f64 w]))
+  end.
+Definition qbins (b : list (Z * W)) : list (Z * Q) := map (fun kw => (fst kw, this (snd kw))) b.
+Definition map_sig (m : option mapid) : option (N * N * N) :=
+  option_map (fun m => (mk_kind m, bits_of_f64 (mk_gamma m), bits_of_f64 (mk_off m))) m.
+Definition ds_sig (r : dres dsketch) :=
+  match r with
+  | DOk d rest => inl (qbins (ss_bins (ds_pos d)), qbins (ss_bins (ds_neg d)), this (ds_zero d), map_sig (ds_map d), rest)
+  | DErr e => inr (Some e)
+  | DPanic => inr None
+  end.
+Definition content_sig (c : option content) :=
+  match c with
+  | Some c => Some (qbins (c_pos c), qbins (c_neg c), this (c_zero c),
+                    option_map (fun m => (fst (fst m), bits_of_f64 (snd (fst m)), bits_of_f64 (snd m))) (c_map c),
+                    (map bits_of_f64 (c_count c), map bits_of_f64 (c_sum c), map bits_of_f64 (c_min c), map bits_of_f64 (c_max c)))
+  | None => None
+  end.
